@@ -191,8 +191,14 @@ Print Assumptions C02_not_soundness_full.
    real Evaluator.Eval crashes on (Go panic); the model crashes the same way *)
 
 (*  x := 1 / for i := range 2 / print x+1 i / x := "a" / print x / end
-    the for statement keeps one scope for all iterations: in the second one
-    `x` is the string declared in the first *)
+    REGRESSION.  When evalFor kept ONE scope for all iterations, in the second
+    iteration `x` resolved to the string declared in the first one although the
+    parser had typed `x+1` with the outer num: Go panic "interface conversion:
+    value is *numVal, not *stringVal" (model: EHostCrash "value is not a
+    *stringVal"; wt then had to forbid shadowing in a for frame).  Since every
+    iteration runs its body in a scope of its own (exec_for pushes a frame
+    around the block), a for body is an ordinary block: wt accepts the program,
+    it lies in the proved fragment, and the run completes. *)
 Definition ex_for_shadow : program :=
   {| p_funcs := []; p_handlers := [];
      p_stmts :=
@@ -202,10 +208,10 @@ Definition ex_for_shadow : program :=
            SDecl (s_ "x") TStr (EStr (s_ "a"));
            SCallStmt (s_ "print") [EAny (v_ "x" TStr) TStr]]] |}.
 
-Example C02_hole_for_shadow :
-  wt_program ex_for_shadow = false /\
-  fst (run_program 200 ex_for_shadow s0_) = OErr (EHostCrash (s_ "value is not a *stringVal")).
-Proof. vm_compute. split; reflexivity. Qed.
+Example C02_for_body_is_a_block :
+  wt_program ex_for_shadow = true /\ s1_program ex_for_shadow = true /\
+  fst (run_program 200 ex_for_shadow s0_) = ODone.
+Proof. vm_compute. repeat split; reflexivity. Qed.
 
 (*  y := ([[]] + [[1]])[1] + ["a"] / print y[0]+"b"
     `[[]] + [[1]]` is given the type of its LEFT operand, [][] : its element
